@@ -124,3 +124,65 @@ pub fn distinct_count(tcs: &[String]) -> usize {
     v.dedup();
     v.len()
 }
+
+use crate::gen::{cfg_strategy, program_strategy, OpWeights};
+use proptest::prelude::*;
+
+/// Strategy for (derivation program, settings) -> Case; `fix` forces / forbids flags.
+pub fn case_strategy(
+    pools: &'static [&'static str],
+    with_any: bool,
+    w: OpWeights,
+    max_ops: usize,
+    max_rep: u8,
+    fix: fn(Cfg) -> Cfg,
+) -> BoxedStrategy<Case> {
+    (program_strategy(pools, with_any, w, max_ops, max_rep), cfg_strategy())
+        .prop_map(move |(p, cfg)| {
+            let mut c = Case::new(p.interpret(), fix(cfg));
+            c.extra = json!({"pool": p.pool_name()});
+            c
+        })
+        .boxed()
+}
+
+pub fn count_pool(c: &Case, st: &mut Stats) {
+    if let Some(p) = c.extra["pool"].as_str() {
+        st.class(&format!("pool={}", p));
+    }
+}
+
+pub fn build_err(m: String) -> String {
+    format!("build() panicked: {}", m)
+}
+
+/// Compare the languages of two patterns (bodies, anchors stripped) directly.
+/// Ok(None) = equal; Ok(Some((witness, only_in_first))) = differ; Err = cannot decide.
+pub fn pattern_diff(p1: &str, p2: &str) -> Result<Option<(String, bool)>, String> {
+    use crate::lang::*;
+    let h1 = parse(p1).map_err(|e| format!("invalid:{}", e))?;
+    let h2 = parse(p2).map_err(|e| format!("invalid:{}", e))?;
+    let (_, _, b1) = strip_anchors(&h1);
+    let (_, _, b2) = strip_anchors(&h2);
+    let n1 = hir_to_nfa(&b1).map_err(|e| format!("{:?}", e))?;
+    let n2 = hir_to_nfa(&b2).map_err(|e| format!("{:?}", e))?;
+    match compare_default(&n1, &n2)? {
+        Diff::Equal => Ok(None),
+        Diff::OnlyLeft(w) => {
+            let (m1, m2) = (FullMatcher::new(&b1)?, FullMatcher::new(&b2)?);
+            if m1.is_full_match(&w) && !m2.is_full_match(&w) {
+                Ok(Some((w, true)))
+            } else {
+                Err(format!("ORACLE-INCONSISTENCY: witness {:?} not confirmed by the engine", w))
+            }
+        }
+        Diff::OnlyRight(w) => {
+            let (m1, m2) = (FullMatcher::new(&b1)?, FullMatcher::new(&b2)?);
+            if !m1.is_full_match(&w) && m2.is_full_match(&w) {
+                Ok(Some((w, false)))
+            } else {
+                Err(format!("ORACLE-INCONSISTENCY: witness {:?} not confirmed by the engine", w))
+            }
+        }
+    }
+}
